@@ -17,8 +17,11 @@ type Taint struct {
 	IsSource func(v ssa.Value) bool
 	// ThroughLoad: does a load (*p) of this type keep the taint? (default: reference-like types only)
 	ThroughLoad func(t types.Type) bool
-	// CopyBreaks: conversions that copy (string <-> []byte) do not propagate.
-	Tainted map[ssa.Value]bool
+	// Arith: also follow integer arithmetic (value flow of numbers instead of aliases).
+	Arith bool
+	// SliceHighBreaks: x[a:b] with an explicit upper bound does not propagate (used for "unconsumed remainder" aliases).
+	SliceHighBreaks bool
+	Tainted         map[ssa.Value]bool
 	fields  map[fieldKey]bool // struct fields that may hold a tainted value
 	cells   map[ssa.Value]bool // addresses (allocs, …) into which a tainted value was stored
 	why     map[ssa.Value]ssa.Value
@@ -155,8 +158,20 @@ func (t *Taint) step(fn *ssa.Function, ins ssa.Instruction) bool {
 			ch = t.mark(ins, ins.X) || ch
 		}
 	case *ssa.Slice:
-		if t.Tainted[ins.X] {
+		if t.Tainted[ins.X] && !(t.SliceHighBreaks && ins.High != nil) {
 			ch = t.mark(ins, ins.X) || ch
+		}
+	case *ssa.BinOp:
+		if t.Arith && (t.Tainted[ins.X] || t.Tainted[ins.Y]) {
+			switch ins.Op {
+			case token.EQL, token.NEQ, token.LSS, token.LEQ, token.GTR, token.GEQ:
+			default:
+				from := ins.X
+				if !t.Tainted[from] {
+					from = ins.Y
+				}
+				ch = t.mark(ins, from) || ch
+			}
 		}
 	case *ssa.Phi:
 		for _, e := range ins.Edges {
@@ -200,12 +215,12 @@ func (t *Taint) step(fn *ssa.Function, ins ssa.Instruction) bool {
 	case *ssa.Convert:
 		// conversions between string and []byte / []rune copy; pointer/unsafe conversions alias
 		if t.Tainted[ins.X] {
-			_, fromStr := ins.X.Type().Underlying().(*types.Basic)
-			_, toStr := ins.Type().Underlying().(*types.Basic)
+			fromStr := isStringT(ins.X.Type())
+			toStr := isStringT(ins.Type())
 			_, fromSl := ins.X.Type().Underlying().(*types.Slice)
 			_, toSl := ins.Type().Underlying().(*types.Slice)
 			copies := (fromStr && toSl) || (fromSl && toStr) || (fromStr && toStr)
-			if !copies && RefLike(ins.Type()) {
+			if !copies && (RefLike(ins.Type()) || t.Arith) {
 				ch = t.mark(ins, ins.X) || ch
 			}
 		}
@@ -215,14 +230,16 @@ func (t *Taint) step(fn *ssa.Function, ins ssa.Instruction) bool {
 				ch = t.mark(ins, ins.X) || ch
 			}
 			// loads from a cell / field that holds a tainted value
-			if t.cells[ins.X] && RefLike(ins.Type()) {
+			if t.cells[ins.X] && (t.Arith || RefLike(ins.Type())) {
 				ch = t.mark(ins, ins.X) || ch
 			}
 			if fa, ok := ins.X.(*ssa.FieldAddr); ok {
-				if s := structOf(fa.X.Type()); s != nil && t.fields[fieldKey{s, fa.Field}] && RefLike(ins.Type()) {
+				if s := structOf(fa.X.Type()); s != nil && t.fields[fieldKey{s, fa.Field}] && (t.Arith || RefLike(ins.Type())) {
 					ch = t.mark(ins, fa) || ch
 				}
 			}
+		} else if t.Arith && t.Tainted[ins.X] {
+			ch = t.mark(ins, ins.X) || ch
 		}
 	case *ssa.Store:
 		if t.Tainted[ins.Val] {
@@ -311,4 +328,9 @@ func (t *Taint) Why(v ssa.Value) []ssa.Value {
 		v = t.why[v]
 	}
 	return out
+}
+
+func isStringT(t types.Type) bool {
+	b, ok := t.Underlying().(*types.Basic)
+	return ok && b.Info()&types.IsString != 0
 }
